@@ -1,67 +1,28 @@
-import Sentinel.Lemmas.LeapArray
+import Sentinel.Lemmas.C08Bucket
+import Sentinel.Lemmas.C08Read
+import Sentinel.Lemmas.C08Items
 import Sentinel.Model.Bucket
 /-!
 # C08 — Sliding-window statistics equal the aligned-bucket reference for any history
-(property theorems only; helper lemmas live in `Sentinel/Lemmas/LeapArray.lean`)
+(property theorems only; helper lemmas live in `Sentinel/Lemmas/LeapArray.lean` and `Sentinel/Lemmas/C08*.lean`)
 
 Reading guide.  `h : List (Nat × M)` is the history of recorded events `(timestamp, payload)`,
 `Mono now0 h` says timestamps never decrease from the creation time `now0`.  `refW L h lo hi` is the
 reference: the sum of the payloads whose *bucket start* `cbs L t` lies in `[lo, hi]`.  The model
 functions (`mk`, `runAdds`, `viewSum`, `valuesAt`, …) are the code-shaped definitions of
 `Sentinel/Model/LeapArray.lean`, the ones the driver executes against the implementation.
+
+Two shapes of "any history": `runAdds (mk n L now0) h` (recordings only, the original statements) and
+`runOps (mk n L now0) ops` (`Lemmas/C08Ops.lean`: recordings `addAt` interleaved with the refreshes that array-level
+reads perform, exactly the calls `Drv/C08.lean` issues; the reference is over `addsOf ops`, the recordings alone).
+A `BaseStatNode` is the second shape with `now0` = the node's creation time and `ops` = the recordings since.
 -/
 namespace Sentinel.C08
 open Sentinel.LA
 
-/-! ## the payload really is a commutative monoid -/
-
-@[ext] theorem Bucket.ext' {a b : Bucket} (h1 : a.pass = b.pass) (h2 : a.block = b.block)
-    (h3 : a.complete = b.complete) (h4 : a.error = b.error) (h5 : a.rt = b.rt) (h6 : a.hr = b.hr)
-    (h7 : a.mc = b.mc) : a = b := by
-  cases a; cases b; simp_all
-
-@[simp] theorem add_pass (a b : Bucket) : (a + b).pass = a.pass + b.pass := rfl
-@[simp] theorem add_block (a b : Bucket) : (a + b).block = a.block + b.block := rfl
-@[simp] theorem add_complete (a b : Bucket) : (a + b).complete = a.complete + b.complete := rfl
-@[simp] theorem add_error (a b : Bucket) : (a + b).error = a.error + b.error := rfl
-@[simp] theorem add_rt (a b : Bucket) : (a + b).rt = a.rt + b.rt := rfl
-@[simp] theorem add_hr (a b : Bucket) : (a + b).hr = max a.hr b.hr := rfl
-@[simp] theorem add_mc (a b : Bucket) : (a + b).mc = max a.mc b.mc := rfl
-@[simp] theorem zero_pass : (0 : Bucket).pass = 0 := rfl
-@[simp] theorem zero_block : (0 : Bucket).block = 0 := rfl
-@[simp] theorem zero_complete : (0 : Bucket).complete = 0 := rfl
-@[simp] theorem zero_error : (0 : Bucket).error = 0 := rfl
-@[simp] theorem zero_rt : (0 : Bucket).rt = 0 := rfl
-@[simp] theorem zero_hr : (0 : Bucket).hr = 0 := rfl
-@[simp] theorem zero_mc : (0 : Bucket).mc = 0 := rfl
-
-instance : AddCommMonoid Bucket where
-  add_assoc a b c := by ext <;> simp [Nat.add_assoc, max_assoc]
-  zero_add a := by ext <;> simp
-  add_zero a := by ext <;> simp
-  add_comm a b := by ext <;> simp [Nat.add_comm, max_comm]
-  nsmul := nsmulRec
-
-/-! ## generic core (any commutative-monoid payload) -/
+/-! ## generic core (any commutative-monoid payload; `Bucket` is one: `Lemmas/C08Bucket.lean`) -/
 section generic
 variable {M : Type} [AddCommMonoid M]
-
-theorem sum_filter_eq_readW (sl : List (Slot M)) (p : Slot M → Bool) (lo hi : Nat)
-    (hp : ∀ s ∈ sl, (lo ≤ s.start ∧ s.start ≤ hi) → p s = true) :
-    ((sl.filter fun s => p s && decide (lo ≤ s.start ∧ s.start ≤ hi)).map (·.val)).sum = readW sl lo hi := by
-  unfold readW
-  induction sl with
-  | nil => rfl
-  | cons s r ih =>
-    have ihr := ih (fun s hs => hp s (List.mem_cons_of_mem _ hs))
-    by_cases hw : lo ≤ s.start ∧ s.start ≤ hi
-    · have := hp s (List.mem_cons_self ..) hw
-      simp only [List.filter_cons, this, hw, decide_true, Bool.and_self, if_true, List.map_cons,
-        List.sum_cons, and_self] at ihr ⊢
-      rw [ihr]
-    · simp only [List.filter_cons, hw, decide_false, Bool.and_false, List.map_cons,
-        List.sum_cons, if_false, zero_add] at ihr ⊢
-      simpa using ihr
 
 /-- **C08, sums** (`GetSum`, and through it QPS / AvgRT / MinRT / MaxConcurrency, which are functions
 of the window payload): for every geometry `(n, L)`, every view interval `Iv ≤ n·L`, every monotone
@@ -69,13 +30,14 @@ history since creation and every read time `now` not before the last event, the 
 equals the reference over the aligned window `[cbs now + L - Iv, cbs now]` (subtraction saturating
 at 0: the repaired `getBucketStartRange`). Nothing older is counted, nothing inside is lost. -/
 theorem viewSum_eq_ref (n L now0 : Nat) (hn : 0 < n) (hL : 0 < L) (h : List (Nat × M)) (mono : Mono now0 h)
-    (now : Nat) (hnow : ∀ e ∈ h, e.1 ≤ now) (hnow0 : now0 ≤ now) (Iv : Nat) (hIv : Iv ≤ n * L) (hIv0 : 0 < Iv) :
+    (now : Nat) (hnow : ∀ e ∈ h, e.1 ≤ now) (hnow0 : now0 ≤ now) (hpos : 0 < now)
+    (Iv : Nat) (hIv : Iv ≤ n * L) (hIv0 : 0 < Iv) :
     viewSum (runAdds (mk n L now0) h) Iv now = refW L h (cbs L now + L - Iv) (cbs L now) := by
   have hLn := runAdds_nL (mk n L now0 : Arr M) h
   have hL' : (runAdds (mk n L now0 : Arr M) h).L = L := by simpa [mk] using hLn.1
   have hn' : (runAdds (mk n L now0 : Arr M) h).n = n := by simpa [mk] using hLn.2
   unfold viewSum viewVals rangeOf
-  simp only [hL', hn']
+  simp only [hL', hn', Nat.ne_of_gt hpos, if_false]
   rw [sum_filter_eq_readW]
   · exact window_eq_ref n L now0 hn hL h mono now hnow hnow0 _ _ (by omega)
   · intro s _ hw
@@ -92,7 +54,7 @@ earlier, under the property's own side condition `Iv + Lv ≤ n·L` (the array c
 no slot for). -/
 theorem prevSum_eq_ref (n L now0 : Nat) (hn : 0 < n) (hL : 0 < L) (h : List (Nat × M)) (mono : Mono now0 h)
     (now : Nat) (hnow : ∀ e ∈ h, e.1 ≤ now) (hnow0 : now0 ≤ now) (Iv Lv : Nat) (hIv : Iv + Lv ≤ n * L)
-    (hLv : Lv ≤ now) (hdiv : L ∣ Lv) :
+    (hLv : Lv < now) (hdiv : L ∣ Lv) :
     viewSum (runAdds (mk n L now0) h) Iv (now - Lv) = refW L h (cbs L (now - Lv) + L - Iv) (cbs L (now - Lv)) := by
   have hLn := runAdds_nL (mk n L now0 : Arr M) h
   have hL' : (runAdds (mk n L now0 : Arr M) h).L = L := by simpa [mk] using hLn.1
@@ -100,15 +62,17 @@ theorem prevSum_eq_ref (n L now0 : Nat) (hn : 0 < n) (hL : 0 < L) (h : List (Nat
   obtain ⟨k, rfl⟩ := hdiv
   have hcb : cbs L (now - L * k) + L * k = cbs L now := by
     rw [cbs_eq, cbs_eq]
-    have : (now - L * k) / L = now / L - k := Nat.sub_mul_div_of_le now L k hLv
+    have hLv' : L * k ≤ now := Nat.le_of_lt hLv
+    have : (now - L * k) / L = now / L - k := Nat.sub_mul_div_of_le now L k hLv'
     rw [this]
     have hk : k ≤ now / L := by
-      rw [Nat.le_div_iff_mul_le hL, Nat.mul_comm]; exact hLv
+      rw [Nat.le_div_iff_mul_le hL, Nat.mul_comm]; exact hLv'
     rw [Nat.sub_mul]
     have : k * L ≤ now / L * L := Nat.mul_le_mul_right _ hk
     rw [Nat.mul_comm L k]; omega
+  have hpos : now - L * k ≠ 0 := by omega
   unfold viewSum viewVals rangeOf
-  simp only [hL', hn']
+  simp only [hL', hn', hpos, if_false]
   rw [sum_filter_eq_readW]
   · exact window_eq_ref n L now0 hn hL h mono now hnow hnow0 _ _ (by omega)
   · intro s _ hw
@@ -125,22 +89,199 @@ theorem add_never_dropped (a : Arr M) (h : List (Nat × M)) (t0 latest t : Nat) 
     (inv : Inv a h t0 latest) (hle : latest ≤ t) : (add a t x).2 = true :=
   (add_step a h t0 latest t x inv hle).2
 
+/-- **C08, sums, interleaved with array-level reads**: after any time-monotone sequence of recordings and
+refreshes since creation at `now0 > 0` (time 0 is "no time" in the library), the view sum read at any `now` not
+before the last call equals the reference over the recordings alone.  Reads therefore compose with later
+recordings: a refresh never changes what any later read returns. -/
+theorem ops_viewSum_eq_ref (n L now0 : Nat) (hn : 0 < n) (hL : 0 < L) (h0 : 0 < now0) (ops : List (Op M))
+    (mono : MonoOps now0 ops) (now : Nat) (hnow : ∀ o ∈ ops, o.time ≤ now) (hnow0 : now0 ≤ now)
+    (Iv : Nat) (hIv : Iv ≤ n * L) :
+    viewSum (runOps (mk n L now0) ops) Iv now = refW L (addsOf ops) (cbs L now + L - Iv) (cbs L now) :=
+  viewSum_of_reach _ n L _ _ now (reach_ops n L now0 hn hL h0 ops mono now hnow hnow0)
+    (Nat.lt_of_lt_of_le h0 hnow0) Iv hIv
+
+/-- **previous window, interleaved** (`GetPreviousQPS` reads at `now - Lv`): under the property's side condition
+`Iv + Lv ≤ n·L`, with the view bucket `Lv` a multiple of the array bucket and `Lv < now` (a read landing on time 0 is
+outside the library's domain). -/
+theorem ops_prevSum_eq_ref (n L now0 : Nat) (hn : 0 < n) (hL : 0 < L) (h0 : 0 < now0) (ops : List (Op M))
+    (mono : MonoOps now0 ops) (now : Nat) (hnow : ∀ o ∈ ops, o.time ≤ now) (hnow0 : now0 ≤ now)
+    (Iv Lv : Nat) (hIv : Iv + Lv ≤ n * L) (hLv : Lv < now) (hdiv : L ∣ Lv) :
+    viewSum (runOps (mk n L now0) ops) Iv (now - Lv) =
+      refW L (addsOf ops) (cbs L (now - Lv) + L - Iv) (cbs L (now - Lv)) := by
+  obtain ⟨k, rfl⟩ := hdiv
+  have hcb := cbs_sub_mul L now k hL (Nat.le_of_lt hLv)
+  exact viewSum_at_of_reach _ n L _ _ now (reach_ops n L now0 hn hL h0 ops mono now hnow hnow0)
+    (now - L * k) (by omega) Iv (by omega) (by omega)
+
+/-- **array-level total, interleaved**: refresh at `now`, then the sum of all non-deprecated buckets, equals the
+reference over the last `n` aligned buckets `[cbs now + L − n·L, cbs now]` of the recordings alone. -/
+theorem ops_total_eq_ref (n L now0 : Nat) (hn : 0 < n) (hL : 0 < L) (h0 : 0 < now0) (ops : List (Op M))
+    (mono : MonoOps now0 ops) (now : Nat) (hnow : ∀ o ∈ ops, o.time ≤ now) (hnow0 : now0 ≤ now) :
+    ((valuesAt (refresh (runOps (mk n L now0) ops) now) now).map (·.val)).sum =
+      refW L (addsOf ops) (cbs L now + L - n * L) (cbs L now) :=
+  (total_of_reach _ n L _ _ now (reach_ops n L now0 hn hL h0 ops mono now hnow hnow0)
+    (Nat.lt_of_lt_of_le h0 hnow0)).2
+
 end generic
 
 /-! ## the concrete getters -/
 
 /-- `GetSum(ev)` of a view equals the reference count of `ev` in the aligned window -/
 theorem getSum_eq_ref (n L now0 : Nat) (hn : 0 < n) (hL : 0 < L) (h : List (Nat × Bucket)) (mono : Mono now0 h)
-    (now : Nat) (hnow : ∀ e ∈ h, e.1 ≤ now) (hnow0 : now0 ≤ now) (Iv : Nat) (hIv : Iv ≤ n * L) (hIv0 : 0 < Iv) (ev : Ev) :
+    (now : Nat) (hnow : ∀ e ∈ h, e.1 ≤ now) (hnow0 : now0 ≤ now) (hpos : 0 < now)
+    (Iv : Nat) (hIv : Iv ≤ n * L) (hIv0 : 0 < Iv) (ev : Ev) :
     vSum (runAdds (mk n L now0) h) Iv now ev = (refW L h (cbs L now + L - Iv) (cbs L now)).get ev := by
-  unfold vSum; rw [viewSum_eq_ref n L now0 hn hL h mono now hnow hnow0 Iv hIv hIv0]
+  unfold vSum; rw [viewSum_eq_ref n L now0 hn hL h mono now hnow hnow0 hpos Iv hIv hIv0]
 
 /-- `MinRT` / `MaxConcurrency` of a view equal the reference minimum / peak over the aligned window -/
 theorem minRt_maxConc_eq_ref (n L now0 : Nat) (hn : 0 < n) (hL : 0 < L) (h : List (Nat × Bucket)) (mono : Mono now0 h)
-    (now : Nat) (hnow : ∀ e ∈ h, e.1 ≤ now) (hnow0 : now0 ≤ now) (Iv : Nat) (hIv : Iv ≤ n * L) (hIv0 : 0 < Iv) :
+    (now : Nat) (hnow : ∀ e ∈ h, e.1 ≤ now) (hnow0 : now0 ≤ now) (hpos : 0 < now)
+    (Iv : Nat) (hIv : Iv ≤ n * L) (hIv0 : 0 < Iv) :
     vMinRt (runAdds (mk n L now0) h) Iv now = max 1 (refW L h (cbs L now + L - Iv) (cbs L now)).minRt ∧
     vMaxConc (runAdds (mk n L now0) h) Iv now = (refW L h (cbs L now + L - Iv) (cbs L now)).mc := by
-  unfold vMinRt vMaxConc; rw [viewSum_eq_ref n L now0 hn hL h mono now hnow hnow0 Iv hIv hIv0]; exact ⟨rfl, rfl⟩
+  unfold vMinRt vMaxConc; rw [viewSum_eq_ref n L now0 hn hL h mono now hnow hnow0 hpos Iv hIv hIv0]; exact ⟨rfl, rfl⟩
+
+/-- **`BucketLeapArray.CountWithTime`** (`aCount`: refresh, then all valid buckets): for every geometry, every
+monotone recording history since creation and every read time `now > 0` not before the last event, the count equals
+the reference over the last `n` aligned buckets `[cbs now + L − n·L, cbs now]`. -/
+theorem count_eq_ref (n L now0 : Nat) (hn : 0 < n) (hL : 0 < L) (h : List (Nat × Bucket)) (mono : Mono now0 h)
+    (now : Nat) (hnow : ∀ e ∈ h, e.1 ≤ now) (hnow0 : now0 ≤ now) (hpos : 0 < now) (ev : Ev) :
+    (aCount (runAdds (mk n L now0) h) now ev).2 = (refW L h (cbs L now + L - n * L) (cbs L now)).get ev := by
+  obtain ⟨l', _, hl'm, hinv⟩ := runAdds_inv (mk n L now0) [] now0 now0 h (mk_inv n L now0 hn hL) mono now hnow0 hnow
+  have hLn := runAdds_nL (mk n L now0 : Arr Bucket) h
+  have hL' : (runAdds (mk n L now0 : Arr Bucket) h).L = L := by simpa [mk] using hLn.1
+  have hn' : (runAdds (mk n L now0 : Arr Bucket) h).n = n := by simpa [mk] using hLn.2
+  have ht := (refresh_total_eq_ref _ _ now0 l' now hinv hl'm hpos).2
+  rw [hL', hn'] at ht
+  simp only [List.nil_append] at ht
+  unfold aCount aTotal
+  dsimp only
+  rw [ht]
+
+/-- **`CountWithTime`, interleaved**: the same after any monotone sequence of recordings and earlier array-level
+reads; the reference is over the recordings alone. -/
+theorem ops_count_eq_ref (n L now0 : Nat) (hn : 0 < n) (hL : 0 < L) (h0 : 0 < now0) (ops : List (Op Bucket))
+    (mono : MonoOps now0 ops) (now : Nat) (hnow : ∀ o ∈ ops, o.time ≤ now) (hnow0 : now0 ≤ now) (ev : Ev) :
+    (aCount (runOps (mk n L now0) ops) now ev).2 =
+      (refW L (addsOf ops) (cbs L now + L - n * L) (cbs L now)).get ev := by
+  unfold aCount aTotal
+  dsimp only
+  rw [ops_total_eq_ref n L now0 hn hL h0 ops mono now hnow hnow0]
+
+/-- **reads compose with later recordings**: the array an array-level read leaves behind is the array of the call
+sequence extended by a refresh, still time-monotone — so every `ops_…` theorem applies to whatever follows. -/
+theorem count_composes (a : Arr Bucket) (now0 : Nat) (ops : List (Op Bucket)) (now : Nat) (ev : Ev)
+    (mono : MonoOps now0 ops) (hnow : ∀ o ∈ ops, o.time ≤ now) (hnow0 : now0 ≤ now) :
+    (aCount (runOps a ops) now ev).1 = runOps a (ops ++ [Op.refresh now]) ∧
+    MonoOps now0 (ops ++ [Op.refresh now]) ∧ addsOf (ops ++ [Op.refresh now]) = addsOf ops := by
+  refine ⟨by rw [runOps_append]; rfl, ?_, ?_⟩
+  · clear a ev
+    induction ops generalizing now0 with
+    | nil => exact ⟨hnow0, trivial⟩
+    | cons o r ih =>
+      exact ⟨mono.1, ih o.time mono.2 (fun o' ho' => hnow o' (List.mem_cons_of_mem _ ho')) (hnow o (List.mem_cons_self ..))⟩
+  · clear mono hnow hnow0
+    induction ops with
+    | nil => rfl
+    | cons o r ih => cases o <;> simp [addsOf] at ih ⊢ <;> exact ih
+
+/-- **`GetMaxOfSingleBucket`** (`vMaxBucket`): the largest per-bucket count of `ev` among the view's buckets equals
+the maximum, over the aligned bucket starts `b` of the window (`viewStarts`: the list the reference enumerates,
+`b ∈ viewStarts L Iv now ↔ L ∣ b ∧ cbs now + L − Iv ≤ b ≤ cbs now` by `mem_viewStarts`), of the reference count
+of the single bucket `[b, b]`. -/
+theorem maxBucket_eq_ref (n L now0 : Nat) (hn : 0 < n) (hL : 0 < L) (h0 : 0 < now0) (ops : List (Op Bucket))
+    (mono : MonoOps now0 ops) (now : Nat) (hnow : ∀ o ∈ ops, o.time ≤ now) (hnow0 : now0 ≤ now)
+    (Iv : Nat) (hIv : Iv ≤ n * L) (ev : Ev) :
+    vMaxBucket (runOps (mk n L now0) ops) Iv now ev =
+      ((viewStarts L Iv now).map fun b => (refW L (addsOf ops) b b).get ev).foldl max 0 :=
+  maxBucket_of_reach _ n L _ _ now (reach_ops n L now0 hn hL h0 ops mono now hnow hnow0)
+    (Nat.lt_of_lt_of_le h0 hnow0) Iv hIv (fun b => b.get ev) (zero_get ev)
+
+/-- `viewStarts` is exactly the set of aligned bucket starts of the view window, each once -/
+theorem viewStarts_spec (L Iv now : Nat) (hL : 0 < L) :
+    (viewStarts L Iv now).Nodup ∧
+    ∀ b, b ∈ viewStarts L Iv now ↔ L ∣ b ∧ cbs L now + L - Iv ≤ b ∧ b ≤ cbs L now :=
+  ⟨(nodup_lastStarts L _ _ hL).filter _, fun b => mem_viewStarts L Iv now b hL⟩
+
+/-! ### `BaseStatNode` wrappers (an own array created at the node's creation time, recordings only) -/
+
+/-- integer part of `BaseStatNode.AvgRT`: total RT over completions, 0 without completions -/
+def nodeAvgRt (b : Bucket) : Nat := if b.complete = 0 then 0 else b.rt / b.complete
+
+/-- **`BaseStatNode` getters**: `GetSum`, `AvgRT` (= ⌊Σrt / Σcomplete⌋ of the window, 0 without completions),
+`MinRT`, `MaxConcurrency` and the integer argument of `GetMaxAvg` (`GetMaxOfSingleBucket`; the driver multiplies it
+by `sampleCount / interval · 1000` in `Float`) are the same functions of the reference window payload. -/
+theorem node_getters_eq_ref (n L now0 : Nat) (hn : 0 < n) (hL : 0 < L) (h0 : 0 < now0) (ops : List (Op Bucket))
+    (mono : MonoOps now0 ops) (now : Nat) (hnow : ∀ o ∈ ops, o.time ≤ now) (hnow0 : now0 ≤ now)
+    (Iv : Nat) (hIv : Iv ≤ n * L) :
+    let a := runOps (mk n L now0) ops
+    let w := refW L (addsOf ops) (cbs L now + L - Iv) (cbs L now)
+    (∀ ev, vSum a Iv now ev = w.get ev) ∧
+    nodeAvgRt (viewSum a Iv now) = (if w.get .complete = 0 then 0 else w.get .rt / w.get .complete) ∧
+    vMinRt a Iv now = max 1 w.minRt ∧ vMaxConc a Iv now = w.mc ∧
+    (∀ ev, vMaxBucket a Iv now ev =
+      ((viewStarts L Iv now).map fun b => (refW L (addsOf ops) b b).get ev).foldl max 0) := by
+  intro a w
+  have hv : viewSum a Iv now = w := ops_viewSum_eq_ref n L now0 hn hL h0 ops mono now hnow hnow0 Iv hIv
+  refine ⟨fun ev => by unfold vSum; rw [hv], by rw [hv]; rfl, by unfold vMinRt; rw [hv], by unfold vMaxConc; rw [hv], ?_⟩
+  intro ev
+  exact maxBucket_eq_ref n L now0 hn hL h0 ops mono now hnow hnow0 Iv hIv ev
+
+/-! ### per-second items (`SecondMetricsOnCondition`, a read that does **not** refresh)
+
+`secondItems` and the reference `refItems` (the expression the driver's `spec` mode evaluates over
+`itemStarts L cnt now lo hi`, the last `cnt` aligned bucket starts restricted to the caller's `[lo, hi]`) are both
+lists with one item per distinct second; they are compared as finite maps `second ↦ payload` (`itemAt`), and
+therefore have the same non-zero items — the driver's canonical form (all-zero items dropped, sorted by second). -/
+
+/-- **items, outside the known-finding region** (`_partial`: `now` is not on a bucket boundary, or the current
+bucket has been touched): each reported second's payload equals the sum of the references of its buckets inside the
+array-wide aligned window (the last `n` buckets ending at the current one) that satisfy the caller's predicate;
+no second with a non-zero reference is missing; seconds are distinct. -/
+theorem secondItems_eq_ref_partial (n L now0 : Nat) (hn : 0 < n) (hL : 0 < L) (h0 : 0 < now0) (ops : List (Op Bucket))
+    (mono : MonoOps now0 ops) (now : Nat) (hnow : ∀ o ∈ ops, o.time ≤ now) (hnow0 : now0 ≤ now) (lo hi : Nat)
+    (hreg : now % L ≠ 0 ∨ cbs L now0 = cbs L now ∨ ∃ o ∈ ops, cbs L o.time = cbs L now) :
+    let items := secondItems (runOps (mk n L now0) ops) now lo hi
+    let ref := refItems L (addsOf ops) (itemStarts L n now lo hi)
+    (∀ sec, itemAt items sec = itemAt ref sec) ∧ (∀ p, p.2 ≠ 0 → (p ∈ items ↔ p ∈ ref)) ∧
+    (items.map (·.1)).Nodup ∧ (ref.map (·.1)).Nodup := by
+  intro items ref
+  have r := reach_ops n L now0 hn hL h0 ops mono now hnow hnow0
+  have hreg' : now % L ≠ 0 ∨ cbs L (lastTime now0 ops) = cbs L now := by
+    rcases hreg with h | h
+    · exact Or.inl h
+    · exact Or.inr (touched_last L now0 ops mono now hnow hnow0 h)
+  have heq : ∀ sec, itemAt items sec = itemAt ref sec :=
+    items_of_reach _ n L _ _ now r (Nat.lt_of_lt_of_le h0 hnow0) lo hi hreg'
+  have k1 := secondItems_keys_nodup (runOps (mk n L now0) ops) now lo hi
+  have k2 := refItems_keys_nodup L (addsOf ops) (itemStarts L n now lo hi)
+  exact ⟨heq, fun p hp => items_same_nonzero items ref k1 k2 heq p hp, k1, k2⟩
+
+/-- **items, inside the known-finding region** (`items-boundary-bucket`: `now` exactly on a bucket boundary, nothing
+has touched the current bucket): the same equality holds with the window one bucket longer (`n + 1` buckets) — the
+strict deprecation test `now − start > n·L` admits the bucket that began exactly one interval ago.  Together with
+`secondItems_eq_ref_partial` this determines the items for every reachable array and every read time. -/
+theorem secondItems_boundary_eq (n L now0 : Nat) (hn : 0 < n) (hL : 0 < L) (h0 : 0 < now0) (ops : List (Op Bucket))
+    (mono : MonoOps now0 ops) (now : Nat) (hnow : ∀ o ∈ ops, o.time ≤ now) (hnow0 : now0 ≤ now) (lo hi : Nat)
+    (hb : now % L = 0) (hun : cbs L (lastTime now0 ops) ≠ cbs L now) :
+    let items := secondItems (runOps (mk n L now0) ops) now lo hi
+    let ref := refItems L (addsOf ops) (itemStarts L (n + 1) now lo hi)
+    (∀ sec, itemAt items sec = itemAt ref sec) ∧ (∀ p, p.2 ≠ 0 → (p ∈ items ↔ p ∈ ref)) := by
+  intro items ref
+  have r := reach_ops n L now0 hn hL h0 ops mono now hnow hnow0
+  have heq : ∀ sec, itemAt items sec = itemAt ref sec :=
+    items_of_reach_boundary _ n L _ _ now r (Nat.lt_of_lt_of_le h0 hnow0) lo hi hb hun
+  exact ⟨heq, fun p hp => items_same_nonzero items ref (secondItems_keys_nodup _ now lo hi)
+    (refItems_keys_nodup L _ _) heq p hp⟩
+
+/-- `itemStarts L cnt now lo hi` is exactly the set of aligned bucket starts among the last `cnt` buckets ending at
+the current one that satisfy the caller's predicate, each once -/
+theorem itemStarts_spec (L cnt now lo hi : Nat) (hL : 0 < L) :
+    (itemStarts L cnt now lo hi).Nodup ∧
+    ∀ b, b ∈ itemStarts L cnt now lo hi ↔
+      (L ∣ b ∧ b ≤ cbs L now ∧ cbs L now < b + cnt * L) ∧ lo ≤ b ∧ b ≤ hi := by
+  refine ⟨(nodup_lastStarts L _ _ hL).filter _, fun b => ?_⟩
+  simp only [itemStarts, List.mem_filter, decide_eq_true_eq, mem_lastStarts L cnt _ b hL (cbs_dvd L now)]
 
 /-- the window payload's counters are plain sums, its `mc` a maximum and its `minRt` a minimum capped at 60000:
     what "computed from the multiset of recorded events" means for each getter -/
@@ -162,6 +303,11 @@ theorem validView_iff_tiles (sc Iv psc pI : Nat) :
 /-! ## non-vacuity: concrete histories meet the hypotheses, and the pinned defect is real -/
 
 example : Mono 100 [(100, evBucket .pass 3), (700, evBucket .pass 2)] := by simp [Mono]
+example : MonoOps 100 [Op.add 100 (evBucket .pass 3), Op.refresh 600, Op.add 700 (evBucket .pass 2)] := by
+  simp [MonoOps, Op.time]
+/-- the hypotheses of `secondItems_boundary_eq` are met by the known-finding replay (read at 638 on a 1 ms grid,
+    last call at 618) -/
+example : 638 % 1 = 0 ∧ cbs 1 (lastTime 1 [Op.add 618 (evBucket .pass 3)]) ≠ cbs 1 638 := by decide
 
 /-- the pre-repair arithmetic (`rangeOfWrap`, uint64 wrap-around) lost the window for `now < Iv - L`:
     array 2×500 created at t=100, view interval 1000 read at t=100 — the wrapped start excludes the
@@ -169,5 +315,13 @@ example : Mono 100 [(100, evBucket .pass 3), (700, evBucket .pass 2)] := by simp
 theorem underflow_witness :
     (rangeOfWrap 500 1000 100).1 > 100 ∧ (rangeOf 500 1000 100) = (0, 0) ∧
     (refW 500 [(100, evBucket .pass 1)] 0 (cbs 500 100)).pass = 1 := by decide
+
+/-- known finding `items-boundary-bucket` (not repaired; same strict test as upstream): a per-second
+    item read issued exactly on a bucket boundary (array 20×1 ms created at t=1, 3 passes at t=618, read at
+    t=638 with no refresh in between) still reports the bucket 618 = 638 − 20, although the aligned
+    window ending at the current bucket is [619, 638] and contains nothing. -/
+theorem items_boundary_witness :
+    ((secondItems (addAt (mk 20 1 1 : Arr Bucket) 618 (evBucket .pass 3)).1 638 0 100000).map fun p => p.2.pass) = [3]
+    ∧ (refW 1 [(618, evBucket .pass 3)] 619 638).pass = 0 := by decide
 
 end Sentinel.C08
